@@ -4,10 +4,10 @@ package main
 //
 // OTLP   c06otlp|c06otlprt <nres> ( KVS <nscopes> ( <nspans> SPAN* )* )*
 //        KVS  = <n> ( <hexkey> VAL )*n
-//        VAL  = s <hex> | b 0|1 | i <int> | d <ieee bits> | y <hex> | u | a <n> VAL*n | m <n> ( <hexkey> VAL )*n
-//        SPAN = <tid> <sid> <pid> <name> <kind> <start> <end> ( N | T <code> <hexmsg> ) KVS
+//        VAL  = s <hex> | b 0|1 | i <int> | d <ieee bits> | y <hex> | u | N (nil pointer) | a <n> VAL*n | m <n> ( <hexkey> VAL )*n
+//        SPAN = <tid> <sid> <pid> <name> <kind> <start> <end> ( N | T <code> <hexmsg> ) KVS <nevents> ( <time> <hexname> )*
 // Zipkin c06zip|c06ziprt a|n <nspans> ( <serial> <rawlen> <nfields> FIELD* )*
-//        FIELD = T J | I J | P J | N J | K J | t Z | u Z | L E | R E | G ( ~ | <n> ( <hexkey> J )*n ) | O
+//        FIELD = T J | I J | P J | N J | K J | t Z | u Z | L E | R E | G ( ~ | <n> ( <hexkey> J )*n ) | A ( ~ | <n> ( <micros> <hexvalue> )*n ) | O
 //        J = ~ (not a string) | <hex> ;  Z = n<int> | s<hex> | x ;  E = ~ | e (a | x | s<hex>) (~|<hex>) (~|<hex>) <port>
 
 import (
@@ -29,7 +29,8 @@ func c06hex(s string) string { return h.Hex([]byte(s)) }
 
 func c06ValTokens(v *v11.AnyValue, out []string) []string {
 	if v == nil {
-		return append(out, "u")
+		// no AnyValue at all (a KeyValue decoded without its value field)
+		return append(out, "N")
 	}
 	switch x := v.Value.(type) {
 	case *v11.AnyValue_StringValue:
@@ -84,7 +85,12 @@ func c06SpanTokens(s *trace.Span, out []string) []string {
 	} else {
 		out = append(out, "T", strconv.Itoa(int(s.Status.Code)), c06hex(s.Status.Message))
 	}
-	return c06KVsTokens(s.Attributes, out)
+	out = c06KVsTokens(s.Attributes, out)
+	out = append(out, strconv.Itoa(len(s.Events)))
+	for _, e := range s.Events {
+		out = append(out, strconv.FormatUint(e.GetTimeUnixNano(), 10), c06hex(e.GetName()))
+	}
+	return out
 }
 
 func c06TracesTokens(td *trace.TracesData) []string {
@@ -177,6 +183,11 @@ func c06GenKVs(rng *h.Rng, n int, depth int, top bool) []*v11.KeyValue {
 			key = rng.Ident(5)
 		}
 		var val *v11.AnyValue
+		if rng.Chance(3) {
+			// a KeyValue without a value
+			kvs = append(kvs, &v11.KeyValue{Key: key})
+			continue
+		}
 		if top && rng.Chance(25) && key != "" && strings.Contains(key, ".name") || key == "peer.service" && rng.Chance(70) {
 			// service-name attributes are mostly strings, sometimes empty
 			val = &v11.AnyValue{Value: &v11.AnyValue_StringValue{StringValue: c06Str(rng)}}
@@ -212,7 +223,7 @@ func c06GenID(rng *h.Rng, want int, wild bool) []byte {
 	return b
 }
 
-// c06GenTraces: ≤ maxRes resources, each ≤ 2 scopes and ≤ maxSpans spans; attribute trees of depth ≤ 3.
+// c06GenTraces: ≤ maxRes resources, each ≤ 2 scopes and ≤ maxSpans spans; attribute trees of depth ≤ 4.
 // wildIDs: ids of any length (otherwise 16/8 bytes).
 func c06GenTraces(rng *h.Rng, maxRes, maxSpans int, wildIDs bool) *trace.TracesData {
 	td := &trace.TracesData{}
@@ -221,7 +232,7 @@ func c06GenTraces(rng *h.Rng, maxRes, maxSpans int, wildIDs bool) *trace.TracesD
 		nres = 1
 	}
 	for r := 0; r < nres; r++ {
-		rs := &trace.ResourceSpans{Resource: &res.Resource{Attributes: c06GenKVs(rng, rng.Intn(5), 3, true)}}
+		rs := &trace.ResourceSpans{Resource: &res.Resource{Attributes: c06GenKVs(rng, rng.Intn(5), 4, true)}}
 		left := rng.Intn(maxSpans + 1)
 		nsc := 1 + rng.Intn(2)
 		for s := 0; s < nsc; s++ {
@@ -257,7 +268,7 @@ func c06GenTraces(rng *h.Rng, maxRes, maxSpans int, wildIDs bool) *trace.TracesD
 					sp.StartTimeUnixNano = 1700000000000000000 + uint64(rng.Intn(1e9))
 					sp.EndTimeUnixNano = sp.StartTimeUnixNano + uint64(rng.Intn(5e9))
 				}
-				sp.Attributes = c06GenKVs(rng, rng.Intn(6), 3, true)
+				sp.Attributes = c06GenKVs(rng, rng.Intn(6), 4, true)
 				if rng.Chance(40) {
 					sp.Status = &trace.Status{Code: trace.Status_StatusCode(rng.Intn(3)), Message: c06Str(rng)}
 				}
@@ -593,7 +604,18 @@ func c06GenZSpan(rng *h.Rng, serial int, wild bool, maxHex int) (*c06ZSpan, map[
 	}
 	for _, k := range []string{"annotations", "debug", "shared", "zz"} {
 		if rng.Chance(20) {
-			add(k, h.Pick(rng, []string{"[{\"timestamp\":1700000000000001,\"value\":\"ws\"}]", "true", "null", "{\"traceId\":\"ff\",\"name\":[\"n\"]}", "\"s\""}), "O")
+			raw := h.Pick(rng, []string{"[{\"timestamp\":1700000000000001,\"value\":\"ws\"}]", "true", "null", "{\"traceId\":\"ff\",\"name\":[\"n\"]}", "\"s\"",
+				"[{\"timestamp\":0,\"value\":\"zero\"},{\"value\":\"nots\"},{\"timestamp\":18446744073709551,\"value\":\"big\"},7,{\"timestamp\":\"5\",\"value\":5}]"})
+			switch {
+			case k != "annotations":
+				add(k, raw, "O")
+			case strings.HasPrefix(raw, "[{\"timestamp\":17"):
+				add(k, raw, "A", "1", "1700000000000001", c06hex("ws"))
+			case strings.HasPrefix(raw, "[{\"timestamp\":0"):
+				add(k, raw, "A", "5", "0", c06hex("zero"), "0", c06hex("nots"), "18446744073709551", c06hex("big"), "0", "-", "0", "-")
+			default:
+				add(k, raw, "A", "~")
+			}
 		}
 	}
 	// any member order
